@@ -35,7 +35,7 @@ MANIFEST_HEAD = {
         "guard": "verif",
         "enable": "go test -tags verif (the harness module /verif/harness replaces github.com/graphql-go/graphql with /repo)",
         "baseline_off_cmd": "cd /repo && GOFLAGS=-mod=mod GOPROXY=off GOSUMDB=off go test -vet=off -count=1 -timeout 25m ./...",
-        "source_commits": ["be1118b"],
+        "source_commits": ["be1118b", "bbad90f"],
         "add_only": True,
     },
     "engines": [
